@@ -11,6 +11,11 @@ final = {}
 if os.path.exists(f"{V}/selftest/corpus_results.json"):
     final = {r["id"]: r for r in json.load(open(f"{V}/selftest/corpus_results.json"))["results"]}
 
+R3 = {}
+if os.path.exists(f"{V}/selftest/round3_first_evaluation.json"):
+    R3 = {r["id"]: r for r in json.load(open(f"{V}/selftest/round3_first_evaluation.json"))["results"]}
+
+
 def load(d, sid):
     p = f"{d}/{sid}.json"
     return json.load(open(p)) if os.path.exists(p) else None
@@ -36,10 +41,14 @@ rows = []
 for d in sorted(glob.glob(f"{V}/seeded/C??-?")):
     sid = os.path.basename(d)
     prop, k = sid[:3], int(sid[-1])
-    rnd = 1 if k <= 2 else 2
+    rnd = 1 if k <= 2 else (2 if k <= 4 else 3)
     src_id = sid if rnd == 1 else f"{prop}-{k - 2}"
-    fin = load(r1f if rnd == 1 else r2f, src_id) or load(r1i if rnd == 1 else r2i, src_id)
-    ini = load(r1i if rnd == 1 else r2i, src_id) or fin
+    if rnd == 3:
+        fin = None
+        ini = R3.get(sid)
+    else:
+        fin = load(r1f if rnd == 1 else r2f, src_id) or load(r1i if rnd == 1 else r2i, src_id)
+        ini = load(r1i if rnd == 1 else r2i, src_id) or fin
     det0 = sorted(c for c, v in (ini or {}).get("checks", {}).items() if v["rc"] == 1)
     det1 = sorted(c for c, v in (fin or {}).get("checks", {}).items() if v["rc"] == 1)
     rules = rules_of(fin)
@@ -52,7 +61,7 @@ for d in sorted(glob.glob(f"{V}/seeded/C??-?")):
     conf = fr or fin or ini or {}
     meta = {
         "id": sid, "breaks_property": prop, "property_title": props[prop], "seeding_round": rnd,
-        "origin": "independent sub-agent given only the property text (round 2: plus the two round-1 patches to avoid) and its own scratch worktree of /repo; nothing from /verif",
+        "origin": "independent sub-agent given only the property text (round 2: plus the two round-1 patches to avoid; round 3: plus one-line descriptions of the four known changes) and its own scratch worktree of /repo; nothing from /verif",
         "summary": first[:300],
         "needs_to_manifest": section(notes, "what is needed", "what exactly is needed", "needed for the bug to manifest", "what manifests", "trigger") or "see NOTES.md",
         "confirmed_by_me": {"demo_on_unchanged_tree_rc": conf.get("demo_clean_rc"), "demo_with_change_rc": conf.get("demo_changed_rc"), "test_suite_passes_with_change": conf.get("tests_pass"),
@@ -62,7 +71,8 @@ for d in sorted(glob.glob(f"{V}/seeded/C??-?")):
         "evaluated_with_final_checks": bool(fr and "checks" in fr),
     }
     json.dump(meta, open(f"{d}/meta.json", "w"), indent=1)
-    rows.append((sid, "yes" if prop in det0 else "no", ", ".join(f"{c} ({'/'.join(r.split('-')[1] for r in rules.get(c, []))})" for c in det1) or "-", first[:100].replace("|", "/")))
+    fe = "yes" if prop in det0 else ("other: " + ",".join(det0) if det0 else ("fail-closed" if rnd == 3 and (ini or {}).get("analysis_errors") else "no"))
+    rows.append((sid, fe, ", ".join(f"{c} ({'/'.join(r.split('-')[1] for r in rules.get(c, []))})" for c in det1) or "-", first[:100].replace("|", "/")))
 for d in sorted(glob.glob(f"{V}/benign/*")):
     sid = os.path.basename(d)
     fr = final.get(sid, {})
